@@ -482,6 +482,8 @@ def c08_compare(rq, impl, model):
     # direct all-or-nothing predicate on the implementation
     f = rq.split(" ")
     dest = f[3] if len(f) > 3 else ""
+    if dest.startswith("nu8:"):
+        dest = dest[4:]
     st = impl.split(" ")[0]
     after = impl.split("dest=", 1)[1] if "dest=" in impl else ""
     before = {"absent": "absent", "devfull": "devfull", "nodir": "nodir"}.get(dest, "file:" + dest[4:] if dest.startswith("pre:") else "?")
